@@ -525,7 +525,7 @@ func judgeC08(e *Env, c *C08Case, tag string, run int64) (*c08Obs, *procsim.Outc
 				// a layer could not be opened or read (injected I/O error that
 				// fired): whatever was printed cannot be the complete output
 				for _, in := range c.Inv.Injects {
-					if (in.Syscall == "read" || in.Syscall == "openat") && in.Errno != "EINTR" {
+					if (in.Syscall == "read" || in.Syscall == "openat") && in.Errno != "EINTR" && out.InjectedBy[in.Syscall] > 0 {
 						viol("exit-0-despite-failed-layer-io", in.Syscall+" of "+in.Path+" failed with "+in.Errno+" and the tool exited 0")
 						return nil
 					}
@@ -546,7 +546,7 @@ func judgeC08(e *Env, c *C08Case, tag string, run int64) (*c08Obs, *procsim.Outc
 			}
 			if c.OutFile != "" {
 				for _, in := range c.Inv.Injects {
-					if in.Syscall == "write" && out.Injected > 0 {
+					if in.Syscall == "write" && out.InjectedBy["write"] > 0 {
 						viol("exit-0-with-failed-sink", "a write to the output file failed with "+in.Errno+" and the tool exited 0")
 						return nil
 					}
